@@ -739,14 +739,15 @@ func Stack[V any](arguments ...any) col.StackLike[V] {
 	case sequence != nil:
 		stack = class.MakeFromSequence(sequence)
 	case len(source) > 0:
-		stack = class.Make()
 		var collection = notation.ParseSource(source).(col.Sequential[any])
 		// Convert the values to their real type.
+		var list = col.List[V](notation).Make()
 		var iterator = collection.GetIterator()
 		for iterator.HasNext() {
 			var value = iterator.GetNext().(V)
-			stack.AddValue(value)
+			list.AppendValue(value)
 		}
+		stack = class.MakeFromSequence(list)
 	default:
 		stack = class.Make()
 	}
